@@ -2,6 +2,7 @@ SPECIFICATION TSpec
 CONSTANTS
   Kinds = {"d", "d2", "ad", "aad", "r", "ar", "dc", "adc", "adx"}
   MaxLen = 4
+  Hooks = {"none", "hw", "ext"}
   FaultModes = {"ee", "ew", "we", "ww"}
 CONSTRAINT Track
 INVARIANT Done
